@@ -39,6 +39,11 @@ def recipe(c: Check):
         cnt = c.cov.get("coq_counters", {}).get("plugins", {})
         need = ["NOK", "NREJECTED", "NERROR", "NTHREADED", "NMULTI", "NHTTP", "NSYS", "NNOTIFY", "NUNREACHABLE", "NDUPNAMES"]
         missing = [k for k in need if cnt.get(k, 0) <= 0]
+        d = st.get("distribution") or {}
+        for k in ("gateway-session-seen", "gateway-login-shown-to-plugin-with-always-auth-pass", "sys-slow-plugin-answer",
+                  "notify-behind-slow-plugin", "sys-legacy-ini-config"):
+            if d.get(k, 0) <= 0 and not st.get("impl_failures"):
+                missing.append(k)
         if missing and not c.broken:
             c.broken.append(dict(kind="sanity", name="driver plugins never reached: " + ",".join(missing),
                                  detail="a model branch the property names was not exercised by this run: %s" % cnt))
@@ -51,7 +56,7 @@ def recipe(c: Check):
              "content, bodies {} and null), (3) an in-process frps started like cmd/frps from a TOML/JSON configuration file (LoadServerConfig incl. Complete, validation, "
              "NewService) whose httpPlugins entries have arbitrary names (omitted, empty, duplicates), and a scripted peer: the gated operation's "
              "visible effect (LoginResp, NewProxyResp, Pong, StartWorkConn, user connection served) must be the one derived "
-             "from the chain's returned content, and CloseProxy notifications on explicit close and session end. Compared with "
+             "from the chain's returned content, and CloseProxy notifications on explicit close and session end; plus sessions that enter through the ssh tunnel gateway (authorized_keys, real x/crypto ssh client, virtual frpc on the internal listener): Login, NewProxy, NewWorkConn and NewUserConn of such a session are gated like an ordinary session's. Compared with "
              "the IR interpreter over today's translated tables and with the chain specification: manager answer (content "
              "digest / reject reason / generic error / panic) and the ordered list of requests each stub received (plugin, op "
              "string, content digest). distinct = distinct case text; non-trivial = at least one plugin consulted",
